@@ -334,22 +334,32 @@ func (bucket *Bucket) nextExpiration() (exp Exp, err error) {
 
 // expireDocuments immediately deletes all expired documents in this bucket.
 func (bucket *Bucket) expireDocuments() (int64, error) {
-	names, err := bucket.ListDataStores()
+	// Look the collections up by their current row ids rather than through this handle's cache of
+	// Collection objects: a collection that was dropped and re-created through another handle has
+	// a new id, and a cached object would sweep the old, empty id for ever.
+	rows, err := bucket.db().Query(`SELECT id, scope, name FROM collections ORDER BY id`)
 	if err != nil {
 		return 0, err
 	}
-	var count int64
-	for _, name := range names {
-		if coll, err := bucket.getCollection(name.(sgbucket.DataStoreNameImpl)); err != nil {
-			if _, ok := err.(sgbucket.MissingError); ok {
-				continue // the collection was dropped since it was listed
-			}
+	var colls []*Collection
+	for rows.Next() {
+		var id CollectionID
+		var scope, name string
+		if err := rows.Scan(&id, &scope, &name); err != nil {
 			return 0, err
-		} else if n, err := coll.expireDocuments(); err != nil {
-			return 0, err
-		} else {
-			count += n
 		}
+		colls = append(colls, &Collection{bucket: bucket, DataStoreNameImpl: sgbucket.DataStoreNameImpl{Scope: scope, Collection: name}, id: id})
+	}
+	if err = rows.Close(); err != nil {
+		return 0, err
+	}
+	var count int64
+	for _, coll := range colls {
+		n, err := coll.expireDocuments()
+		if err != nil {
+			return 0, err
+		}
+		count += n
 	}
 	return count, nil
 }
